@@ -163,17 +163,36 @@ const (
 
 type resumeCmd struct{ fault string }
 
+// st derives the scheduling state; w.mu must be held.
+func (t *Task) st() int {
+	switch {
+	case t.resuming:
+		return tsRunning
+	case t.strandsParked > 0:
+		return tsParked // also when the handler has returned: a strand the library left behind still has to run
+	case t.handlerDone:
+		return tsDone
+	}
+	return tsRunning
+}
+
 type Task struct {
-	ID       int
-	Msg      *MsgSpec
-	Sent     *Sent
-	Replica  int
-	RepGen   int
-	w        *World
-	state    int
-	parkedOp string
-	resume   chan resumeCmd
-	done     chan struct{}
+	ID      int
+	Msg     *MsgSpec
+	Sent    *Sent
+	Replica int
+	RepGen  int
+	w       *World
+	// scheduling state (guarded by w.mu): a task is its handler goroutine plus whatever goroutines the library starts on its
+	// behalf with the request context; each of them ("strand") may park at a seam
+	resuming      bool // a resume command has been handed over and not yet taken
+	strandsParked int
+	handlerDone   bool
+	parkedOp      string
+	cancel        context.CancelFunc
+	Cancelled     bool // the client went away (request context cancelled) while the request was in flight
+	resume        chan resumeCmd
+	done          chan struct{}
 
 	Calls                    []CallRec
 	Panic                    string
@@ -210,13 +229,16 @@ func (t *Task) park(op string) string {
 	}
 	t.w.hist.add("park", t.ID, op)
 	t.w.mu.Lock()
-	t.state = tsParked
+	t.strandsParked++
 	t.parkedOp = op
 	t.w.mu.Unlock()
 	cmd := <-t.resume
 	t.w.mu.Lock()
-	t.state = tsRunning
-	t.parkedOp = ""
+	t.strandsParked--
+	t.resuming = false
+	if t.strandsParked == 0 {
+		t.parkedOp = ""
+	}
 	t.w.mu.Unlock()
 	return cmd.fault
 }
@@ -285,6 +307,26 @@ type simBody struct {
 
 func (b *simBody) Close() error { return nil }
 
+// splitAt: where a "split" body is cut. Even offsets choose one of the '&' of a form body (so that whole parameters travel in
+// the second segment), odd ones any byte.
+func (b *simBody) splitAt() int {
+	if len(b.data) < 2 {
+		return len(b.data)
+	}
+	if b.faultOff%2 == 0 {
+		var amps []int
+		for i, c := range b.data {
+			if c == '&' {
+				amps = append(amps, i)
+			}
+		}
+		if len(amps) > 0 {
+			return amps[(b.faultOff/2)%len(amps)]
+		}
+	}
+	return 1 + b.faultOff%(len(b.data)-1)
+}
+
 func (b *simBody) Read(p []byte) (int, error) {
 	if b.task.w.cfg.ParkBody && !b.parkedOnce {
 		b.parkedOnce = true
@@ -302,6 +344,16 @@ func (b *simBody) Read(p []byte) (int, error) {
 			if !b.fired {
 				b.fired = true
 				b.task.w.fire("body_short_reads")
+			}
+		}
+	case "split":
+		// the body arrives in two TCP segments; the cut is either at a parameter boundary or anywhere
+		cut := b.splitAt()
+		if b.off < cut && b.off+len(p) > cut {
+			p = p[:cut-b.off]
+			if !b.fired {
+				b.fired = true
+				b.task.w.fire("body_split")
 			}
 		}
 	case "err", "eof":
@@ -630,7 +682,7 @@ func (w *World) finalizeDone() {
 	w.mu.Lock()
 	var todo []*Task
 	for _, t := range w.tasks {
-		if t.state == tsDone && t.Reply == nil {
+		if t.st() == tsDone && t.Reply == nil {
 			todo = append(todo, t)
 		}
 	}
@@ -661,7 +713,7 @@ func (w *World) parked() []*Task {
 	defer w.mu.Unlock()
 	var out []*Task
 	for _, t := range w.tasks {
-		if t.state == tsParked {
+		if t.st() == tsParked {
 			out = append(out, t)
 		}
 	}
@@ -673,7 +725,7 @@ func (w *World) inflight() []*Task {
 	defer w.mu.Unlock()
 	var out []*Task
 	for _, t := range w.tasks {
-		if t.state != tsDone {
+		if t.st() != tsDone {
 			out = append(out, t)
 		}
 	}
@@ -742,7 +794,7 @@ func (w *World) step(s *Step) {
 		}
 		for guard := 0; guard < 1000; guard++ {
 			w.mu.Lock()
-			st := t.state
+			st := t.st()
 			w.mu.Unlock()
 			if st != tsParked {
 				break
@@ -750,12 +802,34 @@ func (w *World) step(s *Step) {
 			w.resumeTask(t, "")
 			w.settle()
 		}
+	case "cancel":
+		// the client of an in-flight request disconnects: net/http cancels the request context; the storage calls of this
+		// simulator (like many real ones) run on regardless
+		ps := w.parked()
+		if len(ps) == 0 {
+			w.noop("cancel: nothing parked")
+			return
+		}
+		t := ps[mod(s.Pick, len(ps))]
+		if t.Cancelled || t.cancel == nil {
+			w.noop("cancel: already cancelled")
+			return
+		}
+		t.Cancelled = true
+		t.cancel()
+		w.fire("client_cancelled")
+		w.hist.add("cancel", t.ID, "")
+		w.settle()
 	case "until":
 		// run one task up to (not into) its next call of s.Op; it stops earlier when it finishes or blocks inside the library
+		want := s.Pick
+		if want < 0 {
+			want = len(w.tasks) - 1 // the task sent last
+		}
 		for guard := 0; guard < 16; guard++ {
 			var t *Task
 			for _, x := range w.parked() {
-				if x.ID == s.Pick {
+				if x.ID == want {
 					t = x
 				}
 			}
@@ -834,7 +908,7 @@ func (w *World) step(s *Step) {
 		i := mod(s.Replica, len(w.replicas))
 		w.mu.Lock()
 		for _, t := range w.tasks {
-			if t.Replica == i && t.state != tsDone {
+			if t.Replica == i && t.st() != tsDone {
 				t.Abandoned = true
 			}
 		}
@@ -877,7 +951,7 @@ func (w *World) runningTasks() int {
 	defer w.mu.Unlock()
 	n := 0
 	for _, t := range w.tasks {
-		if t.state == tsRunning {
+		if t.st() == tsRunning {
 			n++
 		}
 	}
@@ -965,7 +1039,7 @@ func (w *World) resumeTask(t *Task, fault string) {
 	w.hist.add("resume", t.ID, t.parkedOp+" fault="+fault)
 	// mark as running before handing over so a second resume in the same step cannot pick it again
 	w.mu.Lock()
-	t.state = tsRunning
+	t.resuming = true
 	w.mu.Unlock()
 	t.resume <- resumeCmd{fault: fault}
 }
@@ -1159,7 +1233,18 @@ func (w *World) send(m *MsgSpec) *Task {
 	if m.WriterFault {
 		t.Writer.failAt = m.WriterOff
 	}
-	req = req.WithContext(context.WithValue(req.Context(), taskKey{}, t))
+	// the request context is the one net/http would hand to the handler: it is cancelled when the client goes away (step
+	// "cancel") or when a server-side deadline passes (MsgSpec.DeadlineNs, on the simulated clock)
+	ctx := context.WithValue(req.Context(), taskKey{}, t)
+	releaseDeadline := func() {}
+	if m.DeadlineNs > 0 {
+		var c1 context.CancelFunc
+		ctx, c1 = context.WithTimeout(ctx, time.Duration(m.DeadlineNs))
+		releaseDeadline = c1
+		w.fire("request_deadline")
+	}
+	ctx, t.cancel = context.WithCancel(ctx)
+	req = req.WithContext(ctx)
 	t.TInvoke = time.Now()
 	for _, n := range w.sps {
 		t.SPVers0 = append(t.SPVers0, n.Version)
@@ -1177,11 +1262,14 @@ func (w *World) send(m *MsgSpec) *Task {
 			t.TReturn = time.Now()
 			w.mu.Lock()
 			t.RespKeyVer1, t.MetaKeyVer1 = w.respKeyVer, w.metaKeyVer
-			t.state = tsDone
+			t.handlerDone = true
 			w.mu.Unlock()
 			t.SeqReturn = w.hist.add("return", t.ID, "")
 			close(t.done)
 		}()
+		// like net/http: the request context ends when the handler returns
+		defer releaseDeadline()
+		defer t.cancel()
 		h.ServeHTTP(t.Writer, req)
 	}()
 	w.settle()
@@ -1357,7 +1445,7 @@ func normFault(op, fault string) string {
 	}
 	if op == "GetResponseSigningKey" || op == "GetMetadataSigningKey" {
 		switch fault {
-		case "nil_record", "key_without_cert", "cert_without_key", "empty_cert":
+		case "nil_record", "key_without_cert", "cert_without_key", "empty_cert", "cert_mismatch", "cert_truncated":
 			return fault
 		}
 	}
@@ -1392,12 +1480,24 @@ func (s *simStorage) keyResult(rec *CallRec, fault string, kp *KeyPair) (*key.Ce
 	case "empty_cert":
 		rec.Ret = "empty-cert"
 		return &key.CertificateAndKey{Certificate: []byte{}, Key: kp.Key}, nil
+	case "cert_mismatch":
+		// a half-finished rotation: the certificate of another key next to this private key (signing fails, the record looks complete)
+		rec.Ret = "cert-of-another-key"
+		return &key.CertificateAndKey{Certificate: append([]byte(nil), Keys[KeyRogue].CertDER...), Key: kp.Key}, nil
+	case "cert_truncated":
+		rec.Ret = "cert-truncated"
+		return &key.CertificateAndKey{Certificate: append([]byte(nil), kp.CertDER[:len(kp.CertDER)/2]...), Key: kp.Key}, nil
 	}
 	rec.Ret = fmt.Sprintf("key#%d", kp.Idx)
 	return &key.CertificateAndKey{Certificate: append([]byte(nil), kp.CertDER...), Key: kp.Key}, nil
 }
 
-func (w *World) respKey(ver int) *KeyPair { return Keys[KeyIDPResp0+mod(ver, 3)] }
+func (w *World) respKey(ver int) *KeyPair {
+	if w.cfg.IDP.ExpiredRespCert && mod(ver, 3) == 0 {
+		return Keys[KeyShort] // a response signing certificate whose validity (the year 2001) has passed or not begun
+	}
+	return Keys[KeyIDPResp0+mod(ver, 3)]
+}
 func (w *World) metaKey(ver int) *KeyPair { return Keys[KeyIDPMeta0+mod(ver, 2)] }
 
 func (s *simStorage) GetMetadataSigningKey(ctx context.Context) (*key.CertificateAndKey, error) {
